@@ -285,7 +285,7 @@ PROPS["C03"] = {
 PROPS["C01"] = {
     "quick_secs": 16,
     "thorough_secs": 420,
-    "min_evaluations": 100000,
+    "min_evaluations": 60000,
     "technique": "differential monitor against the host CPU: each generated encoding is executed natively for exactly one instruction in a ptrace-single-stepped child (harness/src/x86native.rs) and, from the same state, as falcon-lifted IL in the reference IL interpreter; registers, XMM, flags, scratch memory and next address compared",
     "rule": "encoding templates for every mnemonic class the x86 lifter dispatches (ALU, test, mov, lea, inc/dec, neg/not/mul/imul/div/idiv, shifts, "
             "rotates incl. through carry, shld/shrd, movzx/movsx/movsxd, setcc/cmovcc/jcc for all 16 conditions, jmp/call/ret/loop/jrcxz, push/pop/leave, "
